@@ -1140,3 +1140,401 @@ def accumulator_as_generator(fn: ast.FunctionDef):
     ast.fix_missing_locations(new)
     set_parents(new)
     return new
+
+
+# ---- value objects opened in place ------------------------------------------------------------------------------------------
+
+def _value_class_layout(cls: ast.ClassDef):
+    """(fields [(name, default | None)], members {name: (kind, params, defaults, expr)}) of a class whose instances are
+    immutable values: a `@dataclass` / NamedTuple with annotated fields only, no initialiser hooks, no attribute
+    protocol, no method that stores into the instance; a member is listed when it is a read-only `@property` or an
+    undecorated method whose body is (a docstring and) one `return <expression>`.  None when the class is not of that
+    kind."""
+    def deco(d):
+        d = d.func if isinstance(d, ast.Call) else d
+        return d.attr if isinstance(d, ast.Attribute) else getattr(d, 'id', None)
+    decos = [deco(d) for d in cls.decorator_list]
+    bases = [b.attr if isinstance(b, ast.Attribute) else getattr(b, 'id', None) for b in cls.bases]
+    if cls.keywords or not ((decos == ['dataclass'] and not bases) or (not decos and bases == ['NamedTuple'])):
+        return None
+    for d in cls.decorator_list:
+        if isinstance(d, ast.Call) and (d.args or any(k.arg not in ('frozen', 'slots', 'eq', 'order', 'repr', 'kw_only')
+                                                      or (k.arg == 'kw_only' and const_value(k.value) is not False)
+                                                      for k in d.keywords)):
+            return None
+    fields, members = [], {}
+    for s in real_body(cls.body):
+        if isinstance(s, ast.Pass):
+            continue
+        if isinstance(s, ast.AnnAssign) and isinstance(s.target, ast.Name):
+            if 'ClassVar' in ast.unparse(s.annotation) or 'InitVar' in ast.unparse(s.annotation):
+                return None
+            if s.value is not None and not (isinstance(s.value, ast.Constant) or (
+                    isinstance(s.value, ast.UnaryOp) and isinstance(s.value.operand, ast.Constant))):
+                return None
+            fields.append((s.target.id, s.value))
+        elif isinstance(s, ast.FunctionDef):
+            if s.name in ('__init__', '__new__', '__post_init__', '__getattr__', '__getattribute__', '__setattr__',
+                          '__delattr__', '__get__', '__set__', '__init_subclass__', '__class_getitem__'):
+                return None
+            a = s.args
+            me = a.args[0].arg if a.args and not a.posonlyargs else None
+            for x in ast.walk(s):
+                if isinstance(x, (ast.Attribute, ast.Subscript)) and isinstance(x.ctx, (ast.Store, ast.Del)) \
+                        and isinstance(x.value, ast.Name) and x.value.id == me:
+                    return None
+                if isinstance(x, ast.Call) and isinstance(x.func, ast.Attribute) and x.func.attr in ('__setattr__', '__delattr__', '__dict__'):
+                    return None
+                if isinstance(x, ast.Name) and x.id in ('setattr', 'delattr', 'vars'):
+                    return None
+            ds = [deco(d) for d in s.decorator_list]
+            body = real_body(s.body)
+            if me is None or ds not in ([], ['property']) or a.vararg or a.kwarg or len(body) != 1 \
+                    or not isinstance(body[0], ast.Return) or body[0].value is None:
+                members[s.name] = None                      # present, but not a member this pass opens
+                continue
+            if any(isinstance(x, (ast.NamedExpr, ast.Lambda, ast.Yield, ast.YieldFrom, ast.Await)) for x in ast.walk(body[0].value)):
+                members[s.name] = None
+                continue
+            params = [p.arg for p in a.args[1:]] + [p.arg for p in a.kwonlyargs]
+            dflt = dict(zip([p.arg for p in a.args[len(a.args) - len(a.defaults):]], a.defaults))
+            dflt.update({p.arg: d for p, d in zip(a.kwonlyargs, a.kw_defaults) if d is not None})
+            dflt.pop(me, None)
+            if ds == ['property'] and params:
+                return None
+            members[s.name] = ('property' if ds else 'method', me, params, [p.arg for p in a.kwonlyargs], dflt, body[0].value)
+        else:
+            return None
+    if not fields or {f for f, _ in fields} & set(members):
+        return None
+    return fields, members
+
+
+def open_value_objects(fn: ast.AST, classes: dict, max_rounds: int = 8) -> list:
+    """A local of `fn` bound once, by a statement of the function's own block, to `K(a, b, ..)` - K an immutable value
+    class (`_value_class_layout`: dataclass / NamedTuple of annotated fields; `classes` maps the names visible in the
+    function to their ClassDef), the arguments names or constants that the function binds nowhere else - and used only
+    as `v.field`, `v.prop` and `v.method(simple arguments)` where the property / method is one returned expression over
+    the fields, the parameters and module-level names, IS those arguments: `v.field` is replaced by the argument,
+    `v.prop` / `v.method(..)` by the returned expression with the fields and parameters substituted (members that use
+    other members are opened in turn), and the binding goes.  Unlike a statement-level inliner this needs no
+    unconditionally evaluated position - an expression replaces an expression where it stands (conditional
+    expressions, comprehension elements, lambda bodies).  Exact because the object cannot change, the names that
+    stand for its fields are never rebound, and every name the member reads besides those means the same in the
+    function (it is not a local of the function).  Anything else leaves the function as it is.
+    -> names of the locals opened (the function node is rewritten in place; parent links renewed)."""
+    import copy
+    done: list = []
+    if not isinstance(fn, (ast.FunctionDef, ast.AsyncFunctionDef)):
+        return done
+    tried: set = set()
+
+    def dcopy(node):
+        # a deep copy of the node alone (the loader's parent link would take the whole module along)
+        up = node.__dict__.pop('_parent', None)
+        try:
+            return copy.deepcopy(node)
+        finally:
+            if up is not None:
+                node._parent = up
+
+    def placed(r, at):
+        # every substituted node reports at the place of the expression it replaces
+        for x in ast.walk(r):
+            if isinstance(x, (ast.expr, ast.keyword, ast.comprehension, ast.arg)) or hasattr(x, 'lineno'):
+                ast.copy_location(x, at)
+        return ast.fix_missing_locations(r)
+
+    def simple(e):
+        return isinstance(e, ast.Constant) or isinstance(e, ast.Name) or (
+            isinstance(e, ast.UnaryOp) and isinstance(e.operand, ast.Constant))
+
+    for _ in range(max_rounds):
+        stores: dict = {}
+        for x in ast.walk(fn):
+            if isinstance(x, ast.Name) and not isinstance(x.ctx, ast.Load):
+                stores.setdefault(x.id, []).append(x)
+            elif isinstance(x, ast.arg):
+                stores.setdefault(x.arg, []).append(x)
+            elif isinstance(x, (ast.FunctionDef, ast.AsyncFunctionDef, ast.ClassDef)) and x is not fn:
+                stores.setdefault(x.name, []).append(x)
+            elif isinstance(x, (ast.Global, ast.Nonlocal)):
+                for n_ in x.names:
+                    stores.setdefault(n_, []).extend([x, x])
+            elif isinstance(x, ast.alias):
+                stores.setdefault((x.asname or x.name).split('.')[0], []).append(x)
+            elif isinstance(x, ast.ExceptHandler) and x.name:
+                stores.setdefault(x.name, []).append(x)
+            elif isinstance(x, (ast.MatchAs, ast.MatchStar)) and x.name:
+                stores.setdefault(x.name, []).append(x)
+            elif isinstance(x, ast.MatchMapping) and x.rest:
+                stores.setdefault(x.rest, []).append(x)
+        cand = None
+        for i, st in enumerate(fn.body):
+            if isinstance(st, ast.Assign) and len(st.targets) == 1:
+                t = st.targets[0]
+            elif isinstance(st, ast.AnnAssign) and st.value is not None:
+                t = st.target
+            else:
+                continue
+            v = st.value
+            if not (isinstance(t, ast.Name) and isinstance(v, ast.Call) and isinstance(v.func, ast.Name)):
+                continue
+            if t.id in tried or len(stores.get(t.id, [])) != 1 or v.func.id in stores or v.func.id not in classes:
+                continue
+            lay = _value_class_layout(classes[v.func.id])
+            if lay is None:
+                continue
+            cand = (i, st, t.id, v, lay)
+            break
+        if cand is None:
+            break
+        i, st, name, call, (fields, members) = cand
+        tried.add(name)
+        # ---- the fields as given ------------------------------------------------------------------------------------------
+        if any(isinstance(a, ast.Starred) for a in call.args) or any(k.arg is None for k in call.keywords) \
+                or len(call.args) > len(fields):
+            continue
+        given = {fields[j][0]: a for j, a in enumerate(call.args)}
+        bad = False
+        for k in call.keywords:
+            if k.arg in given or k.arg not in dict(fields):
+                bad = True
+            given[k.arg] = k.value
+        for f, d in fields:
+            if f not in given:
+                if d is None:
+                    bad = True
+                else:
+                    given[f] = d
+        if bad or not all(simple(e) for e in given.values()):
+            continue
+        # a name that stands for a field must be the same object at every use: a parameter or a local bound once, before
+        if any(isinstance(e, ast.Name) and not (len(stores.get(e.id, [])) == 1 and (
+                isinstance(stores[e.id][0], ast.arg) or (getattr(stores[e.id][0], 'lineno', 10**9) < st.lineno and any(
+                    stores[e.id][0] in ast.walk(s_) for s_ in fn.body[:i] if isinstance(s_, (ast.Assign, ast.AnnAssign))))))
+               and e.id in stores for e in given.values()):
+            continue
+        local_names = set(stores)
+
+        def opened(member, args, kws, depth):
+            """the value of `self.member` / `self.member(args)` with fields, parameters substituted; None = cannot"""
+            if depth > 6:
+                return None
+            if member in given and args is None:
+                return dcopy(given[member])
+            info = members.get(member)
+            if info is None:
+                return None
+            kind, me, params, kwonly, dflt, expr = info
+            if (kind == 'property') != (args is None):
+                return None
+            bind = {}
+            if args is not None:
+                pos = [p for p in params if p not in kwonly]
+                if len(args) > len(pos) or any(isinstance(a, ast.Starred) for a in args) or any(k.arg is None for k in kws):
+                    return None
+                bind = dict(zip(pos, args))
+                for k in kws:
+                    if k.arg in bind or k.arg not in params:
+                        return None
+                    bind[k.arg] = k.value
+                for p in params:
+                    if p not in bind:
+                        if p not in dflt or not simple(dflt[p]) or isinstance(dflt[p], ast.Name):
+                            return None
+                        bind[p] = dflt[p]
+                if not all(simple(a) for a in bind.values()):
+                    return None
+            inner = set()
+            for x in ast.walk(expr):
+                if isinstance(x, ast.comprehension):
+                    inner |= {y.id for y in ast.walk(x.target) if isinstance(y, ast.Name)}
+            arg_names = {y.id for a in list(bind.values()) + list(given.values()) for y in ast.walk(a) if isinstance(y, ast.Name)}
+            if inner & (arg_names | set(params) | {me}):
+                return None
+            fail = []
+
+            class Open(ast.NodeTransformer):
+                def visit_Call(self, n):
+                    if isinstance(n.func, ast.Attribute) and isinstance(n.func.value, ast.Name) and n.func.value.id == me:
+                        n.args = [self.visit(a) for a in n.args]
+                        for k in n.keywords:
+                            k.value = self.visit(k.value)
+                        r = opened(n.func.attr, n.args, n.keywords, depth + 1)
+                        if r is None:
+                            fail.append(n)
+                            return n
+                        return ast.copy_location(r, n)
+                    return self.generic_visit(n)
+
+                def visit_Attribute(self, n):
+                    if isinstance(n.value, ast.Name) and n.value.id == me:
+                        r = opened(n.attr, None, None, depth + 1) if isinstance(n.ctx, ast.Load) else None
+                        if r is None:
+                            fail.append(n)
+                            return n
+                        return ast.copy_location(r, n)
+                    return self.generic_visit(n)
+
+                def visit_Name(self, n):
+                    if n.id == me:
+                        fail.append(n)                      # the object itself is handed on / compared / formatted
+                    elif n.id in bind:
+                        if not isinstance(n.ctx, ast.Load):
+                            fail.append(n)
+                            return n
+                        return ast.copy_location(dcopy(bind[n.id]), n)
+                    elif n.id not in inner and n.id in local_names:
+                        fail.append(n)                      # a module-level name of the class's module, a local here
+                    return n
+            out = Open().visit(dcopy(expr))
+            return None if fail else out
+
+        # ---- every use of the local ---------------------------------------------------------------------------------------
+        work = [dcopy(s_) for s_ in fn.body[i + 1:]]
+        before = [x for s_ in fn.body[:i + 1] for x in ast.walk(s_) if isinstance(x, ast.Name) and x.id == name]
+        if len(before) != 1:
+            continue
+        ok = [True]
+
+        class Uses(ast.NodeTransformer):
+            def visit_Call(self, n):
+                if isinstance(n.func, ast.Attribute) and isinstance(n.func.value, ast.Name) and n.func.value.id == name \
+                        and n.func.attr not in given:
+                    n.args = [self.visit(a) for a in n.args]
+                    for k in n.keywords:
+                        k.value = self.visit(k.value)
+                    r = opened(n.func.attr, n.args, n.keywords, 0)
+                    if r is None:
+                        ok[0] = False
+                        return n
+                    return placed(r, n)
+                return self.generic_visit(n)
+
+            def visit_Attribute(self, n):
+                if isinstance(n.value, ast.Name) and n.value.id == name:
+                    r = opened(n.attr, None, None, 0) if isinstance(n.ctx, ast.Load) else None
+                    if r is None:
+                        ok[0] = False
+                        return n
+                    return placed(r, n)
+                return self.generic_visit(n)
+
+            def visit_Name(self, n):
+                if n.id == name:
+                    ok[0] = False
+                return n
+        holder = ast.Module(body=work, type_ignores=[])
+        Uses().visit(holder)
+        if not ok[0]:
+            continue
+        fn.body[i:] = holder.body or [ast.copy_location(ast.Pass(), st)]
+        set_parents(fn)
+        done.append(name)
+    return done
+
+
+def drains_as_loops(fn: ast.AST, resolve) -> list:
+    """A generator that is drained on the spot into a list is the loop that appends what it yields: in `fn` (changed in
+    place)  `X = list(g(..))` / `X = [*g(..)]` / `X = [v for v in g(..)]`  become  `X = []; for D in g(..): X.append(D)`,
+    and  `X.extend(g(..))` / `X += g(..)` / `X += list(g(..))`  become  `for D in g(..): X.append(D)`  - for the calls
+    `resolve(call)` accepts (same contract as `splice_generator_loops`, which can then run the generator in the place of
+    that loop).  Exact: list()/extend() take the values one by one in order, and an exception of the generator leaves
+    through the same statement (a list bound only afterwards is bound to nothing the caller could still see, so only a
+    plain local name X is rewritten).  -> the statements rewritten; the loop variable is a fresh name `D`, see
+    `fold_drained_appends`."""
+    done = []
+    names = {x.id for x in ast.walk(fn) if isinstance(x, ast.Name)} | {a.arg for a in ast.walk(fn) if isinstance(a, ast.arg)}
+
+    def drained(v):
+        """the generator call a list-valued expression drains completely, or None"""
+        if isinstance(v, ast.Call) and isinstance(v.func, ast.Name) and v.func.id == 'list' and len(v.args) == 1 \
+                and not v.keywords and isinstance(v.args[0], ast.Call):
+            return v.args[0]
+        if isinstance(v, ast.List) and len(v.elts) == 1 and isinstance(v.elts[0], ast.Starred) \
+                and isinstance(v.elts[0].value, ast.Call):
+            return v.elts[0].value
+        if isinstance(v, ast.ListComp) and len(v.generators) == 1 and not v.generators[0].ifs and not v.generators[0].is_async \
+                and isinstance(v.generators[0].target, ast.Name) and isinstance(v.elt, ast.Name) \
+                and v.elt.id == v.generators[0].target.id and isinstance(v.generators[0].iter, ast.Call):
+            return v.generators[0].iter
+        return None
+
+    for st in [s for s in walk_no_nested(fn) if isinstance(s, ast.stmt)]:
+        tgt, call, fresh_list = None, None, False
+        if isinstance(st, ast.Assign) and len(st.targets) == 1 and isinstance(st.targets[0], ast.Name):
+            tgt, call, fresh_list = st.targets[0].id, drained(st.value), True
+        elif isinstance(st, ast.AnnAssign) and isinstance(st.target, ast.Name) and st.value is not None:
+            tgt, call, fresh_list = st.target.id, drained(st.value), True
+        elif isinstance(st, ast.AugAssign) and isinstance(st.op, ast.Add) and isinstance(st.target, ast.Name):
+            tgt = st.target.id
+            call = drained(st.value) or (st.value if isinstance(st.value, ast.Call) else None)
+        elif isinstance(st, ast.Expr) and isinstance(st.value, ast.Call) and isinstance(st.value.func, ast.Attribute) \
+                and st.value.func.attr == 'extend' and isinstance(st.value.func.value, ast.Name) and len(st.value.args) == 1 \
+                and not st.value.keywords:
+            tgt = st.value.func.value.id
+            a0 = st.value.args[0]
+            call = drained(a0) or (a0 if isinstance(a0, ast.Call) else None)
+        if tgt is None or call is None:
+            continue
+        r = resolve(call)
+        if r is None or not any(isinstance(x, ast.Yield) for x in walk_no_nested(r[0])):
+            continue
+        if any(isinstance(x, ast.Name) and x.id == tgt for x in ast.walk(call)):
+            continue
+        k = 0
+        while f'drained{k or ""}__' in names:
+            k += 1
+        var = f'drained{k or ""}__'
+        names.add(var)
+        app = ast.Expr(value=ast.Call(func=ast.Attribute(value=ast.Name(id=tgt, ctx=ast.Load()), attr='append', ctx=ast.Load()),
+                                      args=[ast.Name(id=var, ctx=ast.Load())], keywords=[]))
+        loop = ast.For(target=ast.Name(id=var, ctx=ast.Store()), iter=call, body=[app], orelse=[], type_comment=None)
+        new = [loop]
+        if fresh_list:
+            new.insert(0, ast.Assign(targets=[ast.Name(id=tgt, ctx=ast.Store())], value=ast.List(elts=[], ctx=ast.Load())))
+        for n_ in new:
+            ast.copy_location(n_, st)
+            for x in ast.walk(n_):
+                if not hasattr(x, 'lineno') and isinstance(x, (ast.expr, ast.stmt)):
+                    ast.copy_location(x, st)
+        app._drained = True
+        _replace_stmt(fn, st, new)
+        done.append(st)
+    if done:
+        ast.fix_missing_locations(fn)
+        set_parents(fn)
+    return done
+
+
+def fold_drained_appends(fn: ast.AST) -> int:
+    """`D = <value>; X.append(D)` left by `drains_as_loops` + `splice_generator_loops` (D the fresh loop variable, used
+    nowhere else) is `X.append(<value>)`.  -> number folded"""
+    n = 0
+    for owner in list(ast.walk(fn)):
+        for f in ('body', 'orelse', 'finalbody'):
+            lst = getattr(owner, f, None)
+            if not isinstance(lst, list):
+                continue
+            i = 0
+            while i + 1 < len(lst):
+                a, b = lst[i], lst[i + 1]
+                if isinstance(a, ast.Assign) and len(a.targets) == 1 and isinstance(a.targets[0], ast.Name) \
+                        and a.targets[0].id.startswith('drained') and a.targets[0].id.endswith('__') \
+                        and getattr(b, '_drained', False) and isinstance(b.value.args[0], ast.Name) \
+                        and b.value.args[0].id == a.targets[0].id \
+                        and sum(1 for x in ast.walk(fn) if isinstance(x, ast.Name) and x.id == a.targets[0].id) == 2:
+                    b.value.args[0] = a.value
+                    ast.copy_location(b, a)
+                    ast.copy_location(b.value, a)
+                    ast.copy_location(b.value.func, a)
+                    ast.copy_location(b.value.func.value, a)
+                    del lst[i]
+                    n += 1
+                    continue
+                i += 1
+    if n:
+        ast.fix_missing_locations(fn)
+        set_parents(fn)
+    return n
